@@ -6,6 +6,7 @@ import (
 	"fmt"
 	"path/filepath"
 	"strings"
+	"sync"
 	"syscall"
 	"time"
 
@@ -194,8 +195,67 @@ func c12Seq(tier string, seed int64, idx int, scratch string) rt.CaseResult {
 		}
 		c.AddDistinct(fmt.Sprintf("%s/%s/empty-key", modeName(mode), shapeOf(seq)))
 	}
+	// storing failures while megabytes are still pending in the pipe (a bounded pipe must not
+	// leave the writer blocked when the storing side has given up)
+	for i, seq := range [][]int{{2 << 20, 1}, {1 << 20, 1 << 20, 1}, {3<<20 + 5, 0, 7}} {
+		c.Evals++
+		if !c12WriteFile(&c, env, tr, "", fmt.Sprintf("c%d-be%d", idx, i), seq, false, nil, false, refmodel.EmptyKey, "empty-key-big") {
+			return c
+		}
+		c.AddDistinct(fmt.Sprintf("%s/big%d/empty-key", modeName(mode), i))
+	}
+	if mode == dbx.Inline && len(env.Cfg.Storage.RootDirs) >= 2 {
+		// one root runs out of space at the k-th write and reports the least free space:
+		// the file must continue on the other root and hold exactly what was written
+		roots := env.Cfg.Storage.RootDirs
+		verif.SetDiskFree(func(root string) (uint64, bool) {
+			if filepath.Clean(root) == filepath.Clean(roots[0]) {
+				return 1000, true
+			}
+			return 5000, true
+		})
+		for i := 0; i < 6; i++ {
+			k := 1 + rng.Intn(4)
+			writes := map[string]int{}
+			var mu sync.Mutex
+			verif.SetWriteFault(func(path string, p []byte) (int, error, bool) {
+				mu.Lock()
+				defer mu.Unlock()
+				if !strings.HasPrefix(path, filepath.Clean(roots[0])+"/") {
+					return 0, nil, false
+				}
+				writes[path]++
+				if writes[path] >= k {
+					return len(p) / 3 * (i % 2), syscall.ENOSPC, true
+				}
+				return 0, nil, false
+			})
+			seq := []int{32768, 3000, 3000, 40000, 1, 3000, 70000}[:3+rng.Intn(5)]
+			if i%3 == 0 {
+				seq = append([]int{100000}, seq...)
+			}
+			c.Evals++
+			ok := c12WriteFile(&c, env, tr, fmt.Sprintf("cont%d", i%2), fmt.Sprintf("c%d-co%d", idx, i), seq, i%2 == 0, nil, false, refmodel.OK, "enospc-then-continue-on-other-root")
+			if !ok {
+				verif.SetWriteFault(nil)
+				verif.SetDiskFree(nil)
+				return c
+			}
+			c.AddDistinct(fmt.Sprintf("inline/%s/continue-on-other-root/k=%d", shapeOf(seq), k))
+		}
+		verif.SetWriteFault(nil)
+		verif.SetDiskFree(nil)
+	}
 	if mode == dbx.Inline {
 		verif.SetWriteFault(func(path string, p []byte) (int, error, bool) { return 0, syscall.ENOSPC, true })
+		for i, seq := range [][]int{{2 << 20, 1}, {1 << 20, 1 << 20, 1}} {
+			c.Evals++
+			if !c12WriteFile(&c, env, tr, "victim", fmt.Sprintf("c%d-bn%d", idx, i), seq, false, prev, true, refmodel.NoFreeSpace, "no-space-big") {
+				verif.SetWriteFault(nil)
+				return c
+			}
+			c.AddDistinct(fmt.Sprintf("inline/big%d/no-space", i))
+		}
 		for i := 0; i < 3; i++ {
 			seq := append([]int{1 + rng.Intn(5000)}, all[rng.Intn(len(all))]...)
 			c.Evals++
